@@ -38,7 +38,13 @@ def _case(draw, tier):
     kind = draw(st.sampled_from(["g1", "g1r", "g1r", "g2", "g2", "loop", "nested", "nestscope", "twocycles"]))
     c = {"kind": kind}
     if kind == "g1":
-        c["nodes"] = draw(gen.permuted(draw(gen.g1_nodes(2, 7))))
+        topo = draw(gen.g1_nodes(2, 7))
+        # some nodes WAIT for a plain data output they do not take as a parameter (an ordering dependency on a value name)
+        for j in range(1, len(topo)):
+            earlier = [o for x in topo[:j] for o in x["outs"] if o not in topo[j]["params"]]
+            if earlier and prob(draw, 0.2):
+                topo[j]["wait_for"] = [draw(st.sampled_from(earlier))]
+        c["nodes"] = draw(gen.permuted(topo))
     elif kind == "g1r":
         # node objects are first used in a graph, then renamed by a bijection (swaps included) and used in a second graph
         topo = draw(gen.g1_nodes(2, 6))
@@ -375,7 +381,7 @@ def check_case(case, ev):
                 x["k"] == "graph" and any(q in y.get("params", []) for q in x["graph"].get("bind", {}) for y in case["nodes"] if y["k"] != "graph") for x in case["nodes"]) else "wrapper")
             own_bound = set(bound_names) - set(ub if bound_names else [])
             bound_now = {n: 1 for n in own_bound}
-        r_req, r_opt, r_active = ref.input_spec(ref_nodes, bound_now, sel, entry)
+        r_req, r_opt, r_active = ref.input_spec(ref_nodes, bound_now, sel, entry, ordering=True)
         if kind == "nestscope" and not any(x["k"] == "graph" and x["name"] in r_active for x in case["nodes"]):
             labels.add("wrapper_out_of_scope")
         if r_req != req or r_opt != opt or sp.entrypoints:
